@@ -119,6 +119,7 @@ def run_case(cfg):
     sig = "|".join(str(x) for x in (mem["memtype"], mem["nphases"], mem["bankbits"], mem["rowbits"], mem["colbits"],
                                     mem.get("nranks", 1), cfg["cs"].get("bank_byte_alignment", 0),
                                     cfg["cs"].get("with_auto_precharge")))
+    st["history_sample"] = (W_ if "W_" in dir() else W).trace_sample(tr)
     return dict(verdict="violated" if v else "held", violations=v[:8], stats=st, nontrivial=nontrivial, signature=sig)
 
 
